@@ -414,6 +414,10 @@ func (*DataProcessor).expandUnnestResults
   props C05 C01 C03 C07 C08 C09 C10 C12 C15 C17 C20
   modifies *
   ensures without-unnest-the-batch-is-exactly-the-row: !old(dp.stream.hasUnnestFunction) ==> len(result0) == 1 && result0[0] == result
+  atreturn [C20 C05] an-expanded-batch-consists-of-maps-built-here-never-of-the-callers-nested-rows: len(result0) > 0 && result0[0] != result ==> forall(j, 0, len(result0), fresh(result0[j]))
+  loop 2 invariant len(results) == len(expandedRows) && len(expandedRows) > 0 && forall(j, 0, $i, fresh(results[j]) && results[j] != result)
+  loop 3 invariant fresh(newRow) && newRow != result && len(results) == len(expandedRows) && forall(j, 0, i, fresh(results[j]) && results[j] != result) && 0 <= i && i < len(expandedRows)
+  loop 4 invariant fresh(newRow) && newRow != result && len(results) == len(expandedRows) && forall(j, 0, i, fresh(results[j]) && results[j] != result) && 0 <= i && i < len(expandedRows)
 
 func (*Stream).processDirectDataSync
   props C20 C05 C06 C12 C13 C14 C15 C16 C19
